@@ -29,12 +29,13 @@ VARIABLES
   apairAt,  \* <<axis, dir>> -> <<ch, note>> the axis direction put on the wire
   pos,      \* axis -> last raw position fed
   lastTx,   \* axis -> <<raw, composite receiver value>> of its last transmitted event
+  hap,      \* [on : a panic happened in this life, keys : keys held at a panic and not released since]
   viol      \* names of the predicates that were false in the last step
 
-vars == <<cfg, st, out, lastIn, lastBr, snd, ccv, pb, pairAt, apairAt, pos, lastTx, viol>>
+vars == <<cfg, st, out, lastIn, lastBr, snd, ccv, pb, pairAt, apairAt, pos, lastTx, hap, viol>>
 
 \* the view for model checking: without the output-only variables (and the constant cfg)
-View == <<st, snd, ccv, pb, pairAt, apairAt, pos, lastTx, viol>>
+View == <<st, snd, ccv, pb, pairAt, apairAt, pos, lastTx, hap, viol>>
 
 \* the projection the tour graph is built on: the implementation-shaped state alone
 ViewSt == st
@@ -102,7 +103,7 @@ StepRec(in, r, o, sg, lst) ==
     apair1 |-> APairNext(cfg, st, apairAt, in, o,
                          r.br \notin {"AxisUndefined", "AxisDuplicate", "AxisLearningGate"}),
     pos1 |-> IF in.ev = "axis" THEN Put(pos, in.a, in.raw) ELSE pos,
-    tx0 |-> lastTx ]
+    tx0 |-> lastTx, hap0 |-> hap ]
 
 IsKeyIn(X)     == X.in.ev \in {"press", "release"}
 IsPressIn(X)   == X.in.ev = "press"
@@ -140,6 +141,13 @@ C01_DisconnectSilent(X) == X.in.ev = "disconnect" => X.snd1 = {}
 C02_ReleasePinned(X) ==
   NoteRelease(X) =>
     \A i \in NoteOffs(X.o) : X.in.k \in DOMAIN X.pair0 /\ PairOf(X.o[i]) = X.pair0[X.in.k]
+
+\* the release of the only holder of what its press put on the wire (any holder when collisions
+\* are not managed) produces that Note Off -- also after a switch to a mapping without the key
+C02_ReleaseEmits(X) ==
+  (NoteRelease(X) /\ X.in.k \in DOMAIN X.pair0 /\ X.in.k \in DOMAIN X.pre.trk
+     /\ (X.c.mode = "off" \/ Get0(X.pre.cnt, X.pre.trk[X.in.k]) = 1)) =>
+    \E i \in NoteOffs(X.o) : PairOf(X.o[i]) = X.pair0[X.in.k]
 
 C02_StateActionsSilent(X) ==
   (ActionIn(X) /\ ActionOf(X) # "panic") => X.o = <<>>
@@ -341,6 +349,16 @@ C13_PanicNeutral(X) ==
      /\ X.lst.oct = X.pre.oct /\ X.lst.semi = X.pre.semi /\ X.lst.chan = X.pre.chan
      /\ X.lst.map = X.c.maps[X.pre.map].name
 
+\* after a panic everything goes on exactly as if it had not happened; only the release of a key
+\* that was down at the panic may also produce nothing ("at most a redundant Note Off")
+C13_AsIfNoPanic(X) ==
+  (X.hap0.on /\ IsKeyIn(X)) =>
+     /\ IF NoteRelease(X) /\ X.in.k \in X.hap0.keys
+          THEN X.o = <<>> \/ (C03_ReleaseRule(X) /\ C02_ReleasePinned(X))
+          ELSE /\ C03_PressRule(X) /\ C03_ReleaseRule(X) /\ C04_PressPitch(X) /\ C04_SilentPress(X)
+               /\ C02_ReleasePinned(X) /\ C02_ReleaseEmits(X)
+     /\ (X.hap0.keys \ {X.in.k} = {} => C01_Quiescent(X))
+
 -----------------------------------------------------------------------------
 (* C14  Exit sequence                                                       *)
 
@@ -357,18 +375,19 @@ C14_NeverEarly(X) ==
 -----------------------------------------------------------------------------
 
 PredNames == {
-  "C01_Quiescent", "C01_DisconnectSilent", "C02_ReleasePinned", "C02_StateActionsSilent",
+  "C01_Quiescent", "C01_DisconnectSilent", "C02_ReleasePinned", "C02_ReleaseEmits", "C02_StateActionsSilent",
   "C03_PressRule", "C03_ReleaseRule", "C04_PressPitch", "C04_SilentPress", "C04_State",
   "C05_WellFormed", "C06_Controller", "C06_PitchBend", "C06_Monotone",
   "C07_Exclusive", "C07_SideMatches", "C07_LearningGate",
   "C08_On", "C08_OnlyConfigured", "C08_Off", "C08_Exclusive", "C08_Pinned",
-  "C13_PanicOut", "C13_PanicNeutral", "C14_Fires", "C14_NeverEarly" }
+  "C13_PanicOut", "C13_PanicNeutral", "C13_AsIfNoPanic", "C14_Fires", "C14_NeverEarly" }
 
 Pred(n, X) ==
   CASE n = "C01_Quiescent" -> C01_Quiescent(X)
     [] n = "C01_DisconnectSilent" -> C01_DisconnectSilent(X)
     [] n = "C02_ReleasePinned" -> C02_ReleasePinned(X)
     [] n = "C02_StateActionsSilent" -> C02_StateActionsSilent(X)
+    [] n = "C02_ReleaseEmits" -> C02_ReleaseEmits(X)
     [] n = "C03_PressRule" -> C03_PressRule(X)
     [] n = "C03_ReleaseRule" -> C03_ReleaseRule(X)
     [] n = "C04_PressPitch" -> C04_PressPitch(X)
@@ -388,12 +407,13 @@ Pred(n, X) ==
     [] n = "C08_Pinned" -> C08_Pinned(X)
     [] n = "C13_PanicOut" -> C13_PanicOut(X)
     [] n = "C13_PanicNeutral" -> C13_PanicNeutral(X)
+    [] n = "C13_AsIfNoPanic" -> C13_AsIfNoPanic(X)
     [] n = "C14_Fires" -> C14_Fires(X)
     [] n = "C14_NeverEarly" -> C14_NeverEarly(X)
 
 \* key-step predicates are evaluated on key steps only, axis ones on axis steps only (speed)
 Relevant(n, X) ==
-  CASE X.in.ev = "axis" -> n \notin {"C02_ReleasePinned", "C02_StateActionsSilent", "C03_PressRule", "C03_ReleaseRule",
+  CASE X.in.ev = "axis" -> n \notin {"C02_ReleasePinned", "C02_ReleaseEmits", "C13_AsIfNoPanic", "C02_StateActionsSilent", "C03_PressRule", "C03_ReleaseRule",
                                      "C04_PressPitch", "C04_SilentPress", "C13_PanicOut", "C13_PanicNeutral", "C14_Fires"}
     [] X.in.ev \in {"press", "release"} -> n \notin {"C06_Controller", "C06_PitchBend", "C06_Monotone", "C07_Exclusive",
                                      "C07_SideMatches", "C07_LearningGate", "C08_On", "C08_OnlyConfigured", "C08_Off",
@@ -409,7 +429,7 @@ InitWith(c) ==
   /\ cfg = c /\ st = InitState(c) /\ out = <<>>
   /\ lastIn = [ev |-> "init"] /\ lastBr = "Init"
   /\ snd = {} /\ ccv = <<>> /\ pb = <<>> /\ pairAt = <<>> /\ apairAt = <<>> /\ pos = <<>>
-  /\ lastTx = <<>> /\ viol = {}
+  /\ lastTx = <<>> /\ hap = [on |-> FALSE, keys |-> {}] /\ viol = {}
 
 \* r : result of Apply for input in;  o, sg, lst : what was observed
 Observe(in, r, o, sg, lst) ==
@@ -423,6 +443,9 @@ Observe(in, r, o, sg, lst) ==
                      /\ AxisDef(cfg, st, in.a).type \in {"cc", "pitch_bend"}
                     THEN Put(lastTx, in.a, <<in.raw, Composite(cfg, st, in.a, X.ccv1, X.pb1), st.map, st.chan>>)
                     ELSE lastTx
+     /\ hap' = IF in.ev \in {"press", "tap"} /\ r.br = "Panic"
+                 THEN [on |-> TRUE, keys |-> st.held \ DOMAIN cfg.actions]
+                 ELSE IF in.ev = "release" THEN [hap EXCEPT !.keys = @ \ {in.k}] ELSE hap
      /\ viol' = Failed(X)
 
 \* the model's own step: the wire carries the prediction.  Bound is a predicate on the post
